@@ -129,7 +129,7 @@ PROPS = {
     'C08': dict(
         translators=['extract_serde_attrs.py'],
         streams=[dict(name='json', quick=800, thorough=60000, filter=only('C08:'))],
-        rule="generated registries (arbitrary and well-formed, every definition kind, optional parts present and absent, empty/long/multi-byte strings) through the real serde_json::to_value (ser cases: shape predicate, library round trip through Value and through text, independent reader) and 5 (thorough 10) structural mutations of each document (member removed/added/renamed incl. type_name, bitSequence, unknown keys; null; numbers at 255/256/2^32-1/2^32, negative, fractional; strings; arrays dropped/duplicated; object replaced by positional array) plus 18 hand-written documents (optional members omitted / explicitly empty / null) through the real from_value under catch_unwind, compared with the model reader. Inputs using serde's positional-array form of structs or the {\"bool\": null} form of unit variants are UNMODELLED (counted).",
+        rule="generated registries (arbitrary and well-formed, every definition kind, optional parts present and absent, empty/long/multi-byte strings) through the real serde_json::to_value (ser cases: shape predicate, library round trip through Value and through text, independent reader) and 5 (thorough 10) structural mutations of each document (member removed/added/renamed incl. type_name, bitSequence, unknown keys; null; numbers at 255/256/2^32-1/2^32, negative, fractional; strings; arrays dropped/duplicated; object replaced by positional array in declaration order, truncated or with a surplus element; unit variant as a one-member map) plus 31 hand-written documents (optional members omitted / explicitly empty / null) through the real from_value under catch_unwind, compared with the model reader.",
         trusted_base=COMMON_TB + ["serde / serde_json 1.0 are modelled (SIM.Model.Json), tied by the differential runs only"],
         assumptions=["key order of JSON objects is not part of the property (canonicalised by sorting)",
                      "the payload of 'bitsequence' carries bit_store_type / bit_order_type (Rust field names), accepted by the shape predicate there and nowhere else"],
